@@ -146,7 +146,14 @@ def split_google_docblocks(docstr):
                 indent_adjust = min(indents[1:])
                 line_indent[0] += indent_adjust
                 line_len[0] += indent_adjust
-                docstr_lines[0] = (' ' * indent_adjust) + docstr_lines[0]
+                # Pad with the whitespace the least indented of the other lines
+                # really starts with (it may be tabs), so dedent can remove it
+                lead = ' ' * indent_adjust
+                for line_, n_, f in list(zip(docstr_lines, line_indent, is_nonzero))[1:]:
+                    if f and n_ == indent_adjust:
+                        lead = line_[:n_]
+                        break
+                docstr_lines[0] = lead + docstr_lines[0]
                 adjusted = True
     if adjusted:
         # Redo prepreocessing, but this time on a rectified input
